@@ -194,6 +194,7 @@ semf = z3.Function("semf", Node, Sem)        # the denotation of a node: Interp 
 ev = z3.Function("ev", Sem, Val)             # ... evaluated at the fixed arbitrary interpretation
 dep = z3.Function("dep", Sem, NodeSet)       # symbols the denotation depends on
 qsem = z3.Function("qsem", I, NodeSet, Sem, Sem)   # quantification over a set of symbols
+qv_ok = z3.Function("qv_ok", Node, B)          # every bound variable of the quantifier is a symbol
 rpow = z3.Function("rpow", R, I, R)           # base ** integer exponent (0 ** negative: unconstrained)
 # uninterpreted application of an uninterpreted function symbol (node) to values
 uf_app = z3.Function("uf_app", Node, z3.SeqSort(Val), Val)
